@@ -25,6 +25,8 @@ def _ev(e, fields, fx, self_local, depth=0):
                 return None
         return None
     if k == "Path":
+        if e.get("res") == "local":
+            return fields.get(("$local", e.get("local")))
         d = F.path_def(e)
         if d:
             return fx.const_value(d)
@@ -59,13 +61,42 @@ def _ev(e, fields, fx, self_local, depth=0):
         sv = _ev(e["scrut"], fields, fx, self_local, depth + 1)
         if sv is None:
             return None
+        def lit_of(x):
+            try:
+                return int(x["v"]) if isinstance(x, dict) and "v" in x else (int(x["value"]["v"]) if isinstance(x, dict) and "value" in x else None)
+            except (TypeError, ValueError, KeyError):
+                return None
+
+        def matches(p, bound):
+            kind = p.get("p")
+            if kind == "Lit":
+                return str(p["value"].get("v")) == str(sv)
+            if kind == "Range":
+                lo, hi = lit_of(p.get("lo")), lit_of(p.get("hi"))
+                if lo is None or hi is None:
+                    return None
+                return lo <= sv <= hi if p.get("inclusive") else lo <= sv < hi
+            if kind == "Wild":
+                return True
+            if kind == "Bind":
+                sub = p.get("sub")
+                ok = True if sub is None else matches(sub, bound)
+                if ok:
+                    bound[("$local", p.get("local"))] = sv
+                return ok
+            return None
+
         for a in e["arms"]:
             pats = a["pat"]["pats"] if a["pat"].get("p") == "Or" else [a["pat"]]
             for p in pats:
-                if p.get("p") == "Lit" and str(p["value"].get("v")) == str(sv):
-                    return _ev(a["body"], fields, fx, self_local, depth + 1)
-                if p.get("p") in ("Wild", "Bind") and a.get("guard") is None:
-                    return _ev(a["body"], fields, fx, self_local, depth + 1)
+                bound = {}
+                m = matches(p, bound)
+                if m is None:
+                    return None
+                if m and a.get("guard") is None:
+                    return _ev(a["body"], {**fields, **bound} if bound else fields, fx, self_local, depth + 1)
+                if m:
+                    return None
         return None
     return None
 
